@@ -838,6 +838,8 @@ def _apply_fault(draw, case, fault, env):
         target = ITEM_PHASES[tp]
         if it['k'] == 'assert' and target != 'assert':
             target = 'assert'
+        if it['k'] == 'stdin':
+            target = 'setup'  # the instruction exists in [setup] only
         lo, hi = 0, len(items[target])
         if target == ph:
             if fault == 'def-later':
